@@ -187,9 +187,27 @@ def parse_render(s):
     return d
 
 
-def mk_eval_cases(g, n, prefix, funcs=0.0, acc=0.0, jnum=0.15, opaque=0.0, filter_heavy=0.5, maxsteps=4, families=0.2):
+def mk_eval_cases(g, n, prefix, funcs=0.0, acc=0.0, jnum=0.15, opaque=0.0, filter_heavy=0.5, maxsteps=4, families=0.2, alias=0.0, fanout=0.0):
+    cases = _mk_eval_cases(g, n, prefix, funcs, acc, jnum, opaque, filter_heavy, maxsteps, families, fanout)
+    if alias:
+        # documents assembled in Go code: one sub-container referenced from two places (shared, not copied)
+        for c in cases:
+            if g.r.random() < (alias * 3 if b'..' in c.path else alias) and len(c.docs) == 1 and not c.acc:
+                d = gens.alias_variant(g.r, c.docs[0])
+                if d is not None:
+                    c.docs = [d]
+                    c.alias = True
+                    c.meta['alias'] = True
+    return cases
+
+
+def _mk_eval_cases(g, n, prefix, funcs, acc, jnum, opaque, filter_heavy, maxsteps, families, fanout):
     cases = []
     for i in range(n):
+        if fanout and g.r.random() < fanout:
+            doc, steps = gens.big_fanout_family(g)
+            cases.append(Case('%s%d' % (prefix, i), gens.render_path(steps), [doc], [], [], meta={'nsteps': len(steps), 'family': 'big-fanout'}))
+            continue
         jn = g.r.random() < jnum
         k = g.r.random()
         if k < families * 0.15:
@@ -453,8 +471,10 @@ def replay(ctx, prop, path):
 
 def case_from_desc(d, cid='replay'):
     docs = [doc_from_desc(x) for x in d.get('docs_desc', [])]
-    return Case(cid, unhx(d['path_hex']), docs, d.get('filters', []), d.get('aggs', []), d.get('accessor', False),
-                d.get('nocfg', False), d.get('mode', 'eval'), d.get('meta'))
+    c = Case(cid, unhx(d['path_hex']), docs, d.get('filters', []), d.get('aggs', []), d.get('accessor', False),
+             d.get('nocfg', False), d.get('mode', 'eval'), d.get('meta'))
+    c.alias = bool(d.get('alias'))
+    return c
 
 
 def doc_from_desc(x):
